@@ -27,6 +27,14 @@ func c05wGen(rt *rapid.T) wProg {
 	}
 	// the prologue of c06Gen creates the group first: keep it first, then the 'me' attachments
 	p.Ops = append(append([]wOp{p.Ops[0]}, pre...), p.Ops[1:]...)
+	// a member narrows the requested mode below the granted one, and messages flow
+	if gPct(rt, 40) {
+		s := gInt(rt, 1, len(p.Sess)-1, "narrow")
+		at := gInt(rt, 1, len(p.Ops), "at")
+		ins := []wOp{{K: "sub", S: s, T: "g0"}, {K: "set", S: s, T: "g0", A: "mode", B: gPick(rt, []string{"JWP", "JP", "JW"}, "narrowed")},
+			{K: "sub", S: 0, T: "g0"}, {K: "pub", S: 0, T: "g0"}, {K: "set", S: s, T: "g0", A: "mode", B: "JRWP"}, {K: "pub", S: 0, T: "g0"}}
+		p.Ops = append(p.Ops[:at], append(ins, p.Ops[at:]...)...)
+	}
 	return p
 }
 
